@@ -119,6 +119,12 @@ class Executor:
     def push_outcome(self, kind, st: State, val=None):
         self.frames[-1].append(Outcome(kind, st, val))
 
+    def safe_assume(self, st, c):
+        """after a safety obligation the code continues under the checked condition; in specifications (total
+        functions, no obligations) nothing is assumed"""
+        if self.spec is None:
+            st.assume(c)
+
     def kill(self, st: State):
         st.dead = True
         st.pc.append(FALSE)
@@ -184,13 +190,13 @@ class Executor:
         if v.ty is bool:
             return z3.If(V.bval(v.t), z3.IntVal(1), z3.IntVal(0))
         self.oblige(st, z3.Or(V.is_i(v.t), V.is_b(v.t)), f"safe.type.int@{getattr(node,'lineno',0)}", "safe", node, what)
-        st.assume(z3.Or(V.is_i(v.t), V.is_b(v.t)))
+        self.safe_assume(st, z3.Or(V.is_i(v.t), V.is_b(v.t)))
         return z3.If(V.is_i(v.t), V.ival(v.t), z3.If(V.bval(v.t), z3.IntVal(1), z3.IntVal(0)))
 
     def as_str(self, st, v: Val, node=None, what="str operand"):
         if v.ty is not str:
             self.oblige(st, V.is_s(v.t), f"safe.type.str@{getattr(node,'lineno',0)}", "safe", node, what)
-            st.assume(V.is_s(v.t))
+            self.safe_assume(st, V.is_s(v.t))
         return V.sval(v.t)
 
     def as_ref(self, st, v: Val, node=None, what="object"):
@@ -198,7 +204,7 @@ class Executor:
         ty = v.ty
         if ty in (int, bool, str, NoneType) or ty is None or isinstance(ty, Opt):
             self.oblige(st, V.is_r(v.t), f"safe.deref@{getattr(node,'lineno',0)}", "safe", node, f"{what} is an object (not None)")
-            st.assume(V.is_r(v.t))
+            self.safe_assume(st, V.is_r(v.t))
         return V.rid(v.t)
 
     def seq_of(self, st, v: Val, node=None) -> SeqView:
@@ -229,7 +235,8 @@ class Executor:
         oid = self.fresh("obj", I)
         st.assume(oid >= a)  # some id not used before (ids below the allocation pointer are taken)
         st.ghost["$alloc"] = oid + 1
-        st.assume(CLS(oid) == self.w.classes.cid(cls))
+        if cls is not None:
+            st.assume(CLS(oid) == self.w.classes.cid(cls))
         return Val(mkr(oid), ty if ty is not None else cls)
 
     def new_seq(self, st: State, kind, n, arr, elem=None, items=None) -> Val:
@@ -573,7 +580,7 @@ class Executor:
         if isinstance(op, ast.FloorDiv):
             x, y = self.as_int(st, a, node), self.as_int(st, b, node)
             self.oblige(st, y != 0, f"safe.div@{node.lineno}", "safe", node, "division by zero")
-            st.assume(y != 0)
+            self.safe_assume(st, y != 0)
             # python floor division
             return Val(mki(z3.If(y > 0, x / y, -((-x) / (-y)) if False else z3.If(x % y == 0, x / y, (x / y)))), int) if False else Val(mki(self.floordiv(x, y)), int)
         if isinstance(op, ast.Mod):
@@ -581,7 +588,7 @@ class Executor:
                 return self.call_handler("str.__mod__", st, [a, b], {}, node)
             x, y = self.as_int(st, a, node), self.as_int(st, b, node)
             self.oblige(st, y != 0, f"safe.mod@{node.lineno}", "safe", node, "modulo by zero")
-            st.assume(y != 0)
+            self.safe_assume(st, y != 0)
             return Val(mki(x - y * self.floordiv(x, y)), int)
         if isinstance(op, ast.Div) and (isinstance(a.ty, type) and a.ty.__name__ in ("Path", "PosixPath", "PurePath") or isinstance(a.ty, Opt)):
             return self.call_handler("pathlib.Path.__truediv__", st, [a, b], {}, node)
@@ -662,6 +669,12 @@ class Executor:
                 raise Unsupported(f"no attribute {attr} on {obj.py!r}", node)
             return self.w.const(real)
         ty = T.strip_opt(obj.ty)
+        if attr == "args" and isinstance(ty, type) and issubclass(ty, BaseException):
+            oid = self.as_ref(st, obj, node, ".args receiver")
+            v = Val(st.arr("$exc_args")[oid], TupleT(elem=None))
+            self.assume_type(st, v)
+            self.assume_allocated(st, v.t)
+            return v
         # attribute handlers (properties with contracts)
         if isinstance(ty, type):
             for k in ty.__mro__:
@@ -694,6 +707,11 @@ class Executor:
             self.assume_type(st, v)
             self.assume_allocated(st, v.t)
             return v
+        if ty is None and attr in _STR_METHODS:
+            # duck typing: calling a str method on a value of unknown type needs it to be a str (else AttributeError)
+            self.oblige(st, V.is_s(obj.t), f"safe.attr.{attr}@{getattr(node,'lineno',0)}", "safe", node, f".{attr}() receiver is a str")
+            self.safe_assume(st, V.is_s(obj.t))
+            return Val(NONE, None, py=BoundMethod(Val(obj.t, str), attr))
         if ty is None:
             # unknown receiver type: allow plain field read with no hint (methods cannot be resolved)
             oid = self.as_ref(st, obj, node, f".{attr} receiver")
@@ -715,7 +733,7 @@ class Executor:
     def norm_index(self, st, seqlen, idx, node, what):
         i2 = z3.If(idx < 0, idx + seqlen, idx)
         self.oblige(st, z3.And(i2 >= 0, i2 < seqlen), f"safe.index@{node.lineno}", "safe", node, f"{what} index in range")
-        st.assume(z3.And(i2 >= 0, i2 < seqlen))
+        self.safe_assume(st, z3.And(i2 >= 0, i2 < seqlen))
         return i2
 
     @staticmethod
@@ -782,7 +800,7 @@ class Executor:
             oid = self.as_ref(st, obj, node, "dict")
             has = st.arr("$dhas")[oid][idx.t]
             self.oblige(st, has, f"safe.key@{node.lineno}", "safe", node, "dict key present (KeyError)")
-            st.assume(has)
+            self.safe_assume(st, has)
             v = Val(st.arr("$dmap")[oid][idx.t], getattr(ty, "v", None))
             self.assume_type(st, v)
             self.assume_allocated(st, v.t)
@@ -1012,7 +1030,7 @@ class Executor:
     def raise_if(self, st: State, c, cls, node=None, fields=None):
         """conditional implicit/explicit exception: fork a raising path under c, continue under not c"""
         cs = simp(c)
-        if z3.is_false(cs):
+        if z3.is_false(cs) or self.spec is not None:
             return
         r = st.fork()
         r.assume(cs)
@@ -1144,7 +1162,7 @@ class Executor:
             for k, v in kwargs.items():
                 st.heap[k] = z3.Store(st.arr(k), oid, v.t)
             tup = self.new_seq_lit(st, tuple, list(args))
-            st.heap["args"] = z3.Store(st.arr("args"), oid, tup.t)
+            st.heap["$exc_args"] = z3.Store(st.arr("$exc_args"), oid, tup.t)  # BaseException.args (not Expression.args)
             return e
         raise Unsupported(f"constructor {cn} without contract", node)
 
@@ -1399,7 +1417,7 @@ class Executor:
                 k = stars[0]
                 after = n - k - 1
                 self.oblige(st, sq.n >= n - 1, f"safe.unpack@{node.lineno}", "safe", node, "enough values to unpack")
-                st.assume(sq.n >= n - 1)
+                self.safe_assume(st, sq.n >= n - 1)
                 for i, e in enumerate(tgt.elts):
                     if i < k:
                         self.assign(st, e, Val(sq.at(i), sq.elem), node)
@@ -1410,7 +1428,7 @@ class Executor:
                         self.assign(st, e, Val(sq.at(sq.n - (n - i)), sq.elem), node)
                 return
             self.oblige(st, sq.n == n, f"safe.unpack@{node.lineno}", "safe", node, f"unpack exactly {n} values")
-            st.assume(sq.n == n)
+            self.safe_assume(st, sq.n == n)
             items = v.ty.items if isinstance(v.ty, TupleT) and v.ty.items is not None and len(v.ty.items) == n else None
             eh = getattr(v.ty, "elem", None)
             for i, e in enumerate(tgt.elts):
@@ -1636,6 +1654,9 @@ class Executor:
 
     def ev_Starred(self, node, st):
         raise Unsupported("starred expression", node)
+
+
+_STR_METHODS = {"upper", "lower", "startswith", "endswith", "strip", "split", "replace", "join", "format", "isdigit"}
 
 
 class SpecCallable:
